@@ -38,6 +38,8 @@ class PybindWrapper:
         self.use_boost_serialization = use_boost_serialization
         self.ignore_classes = ignore_classes
         self._serializing_classes = []
+        # Submodule variables already defined in the file being wrapped.
+        self._submodule_vars = []
         self.module_template = module_template
         self.python_keywords = [
             'lambda', 'False', 'def', 'if', 'raise', 'None', 'del', 'import',
@@ -627,7 +629,11 @@ class PybindWrapper:
         else:
             module_var = self._gen_module_var(namespaces)
 
-            if len(namespaces) > len(self.top_module_namespaces):
+            if len(namespaces) > len(self.top_module_namespaces) and \
+                    module_var not in self._submodule_vars:
+                # A namespace may be opened more than once in a file;
+                # its submodule is created the first time only.
+                self._submodule_vars.append(module_var)
                 wrapped += (
                     ' ' * 4 + 'pybind11::module {module_var} = '
                     '{parent_module_var}.def_submodule("{namespace}", "'
@@ -699,6 +705,7 @@ class PybindWrapper:
         # Instantiate all templates
         module = instantiator.instantiate_namespace(module)
 
+        self._submodule_vars = []
         wrapped_namespace, includes = self.wrap_namespace(module)
 
         if self.use_boost_serialization:
